@@ -237,11 +237,19 @@ pub fn run_c16(env: &mut Env) -> Outcome {
         ref_server = SealCtx::from_keys(&k2, &k1, a2, a1);
     }
     let _ = &mut ref_client;
-    let n = { let mut ctx = ctxrc.borrow_mut(); if ctx.chance("long_history", 1, 40) { 250 + ctx.choose("n_messages_long", 60) as usize } else { 1 + ctx.choose("n_messages", 30) as usize } };
+    // one case in 4000: a conversation in which the sequence numbers of both directions pass 16 bits (the messages and
+    // their direction then follow from the position, not from the tape, to keep the replay file small)
+    let very_long = ctxrc.borrow_mut().chance("very_long_history", 1, 4000);
+    if very_long { ctxrc.borrow_mut().probe("history_beyond_65536_messages"); }
+    let n = { let mut ctx = ctxrc.borrow_mut(); if very_long { 2 * 0x10000 + 600 + ctx.choose("n_messages_very_long", 64) as usize } else if ctx.chance("long_history", 1, 40) { 250 + ctx.choose("n_messages_long", 60) as usize } else { 1 + ctx.choose("n_messages", 30) as usize } };
     let fault_at = if ctxrc.borrow_mut().chance("inject_fault", 3, 4) { Some(ctxrc.borrow_mut().choose("fault_at", n as u64) as usize) } else { None };
     let mut earlier: Vec<Vec<u8>> = Vec::new();
     for k in 0..n {
-        let (to_sut, msg) = { let mut ctx = ctxrc.borrow_mut(); (ctx.chance("towards_sut", 1, 2) || fault_at == Some(k), gen_msg(&mut ctx)) };
+        let (to_sut, msg) = if very_long && fault_at != Some(k) {
+            (k % 2 == 1, vec![k as u8; k % 3])
+        } else {
+            let mut ctx = ctxrc.borrow_mut(); (ctx.chance("towards_sut", 1, 2) || fault_at == Some(k), gen_msg(&mut ctx))
+        };
         if !to_sut {
             // SUT seals: must be byte-identical with the reference sealing at the same position in the history
             let m2 = msg.clone();
